@@ -35,6 +35,8 @@ DECIDING = {
     "lookup_via_inject_async": "injected lookups (async)",
     "lookup_via_async_shortcut": "module-level shortcut lookups",
     "contexts_left": "contexts left while others stay open",
+    "sibling_sequences_teardown_raises": "a context created right after a sibling whose teardown raised",
+    "contexts_driven_through_component_context": "contexts whose commands go through a ComponentContext (component start())",
 }
 ASSUMPTIONS = [
     "types are looked up by exact class (the statement does not mention subclass matching); a subclass pair is in the pool to make the APIs agree on that",
